@@ -787,6 +787,68 @@ def rule_parse_wait(ctx) -> None:
     chk.decide("while mixins_src:" in t and "mixins = mixins_src.copy()" in t and "mixins_src.clear()" in t, "C01.parse-order", pa.qual + " rounds", "postponed mixins are parsed in a later round", "", "", A.loc(MBI, pa.node))
 
 
+def rule_flags_model(ctx) -> None:
+    """C01.flags-model: the image-flags word of the header is self-describing: Mbi_MixinIvt.create_flags evaluated on model images (image
+    type, TrustZone type, sub type, key store / relocation table present or not, attributes absent altogether) and the class's own readers
+    (get_image_type, get_tz_type, get_sub_type, get_key_store_presented, get_app_table_presented) evaluated on a header carrying that
+    word give back exactly what went in."""
+    import itertools as _it
+    import struct as _st
+    from ..engines import ordereval as _oe
+    Obj = _oe.Obj
+    k = ctx.cls(MIX, "Mbi_MixinIvt")
+    cf = ctx.own(MIX, "Mbi_MixinIvt", "create_flags")
+    off = ctx.prog.fold(k.consts.get("IVT_IMAGE_FLAGS_OFFSET"), k.module, k)
+    if not isinstance(off, int):
+        raise AnalysisError("C01.flags-model: IVT_IMAGE_FLAGS_OFFSET does not fold")
+
+    def leaves(c: ast.Call, ev):
+        if isinstance(c.func, ast.Attribute) and c.func.attr == "export" and not c.args:
+            o = ev.ev(c.func.value)
+            if isinstance(o, Obj) and "_export" in o.__dict__:
+                return o._export
+        return _oe.NOT_MODELLED
+    calls = ctx.model_calls(leaves, classes={"Mbi_MixinIvt": k})
+    readers = {"image_type": "get_image_type", "tz": "get_tz_type", "sub": "get_sub_type", "key_store": "get_key_store_presented", "app_table": "get_app_table_presented"}
+    rfn = {}
+    for key, name in readers.items():
+        f = ctx.prog.find_method(k, name)
+        if f is None:
+            raise AnalysisError(f"C01.flags-model: reader {name} not found")
+        ctx.chk.analysed(f.qual)
+        rfn[key] = f
+    probs = []
+    n = 0
+    for itype, tz, sub, ks, tab in _it.product((0, 5, 0xC), (None, 0, 2), (None, 0, 1), (None, b"", b"KKKK"), (None, False, True)):
+        attrs: Dict[str, Any] = {"IMAGE_TYPE": (itype, "t")}
+        if tz is not None:
+            attrs["trust_zone"] = Obj(type=Obj(tag=tz))
+        if sub is not None:
+            attrs["image_subtype"] = sub
+        if ks is not None:
+            attrs["key_store"] = Obj(_export=ks)
+        if tab is not None:
+            attrs["app_table"] = Obj(x=1) if tab else None
+        try:
+            out = _oe.Evaluator({"self": Obj(_cls=k, **attrs)}, ctx.fold_sym(cf), opaque_return=False, call_value=calls).run(A.body_of(cf.node))
+            if out.kind != "return" or not isinstance(out.value, int):
+                probs.append(f"{attrs}: create_flags -> {out.kind}")
+                continue
+            data = bytes(off) + _st.pack("<I", out.value & 0xFFFFFFFF) + bytes(64)
+            got = {}
+            for key, f in rfn.items():
+                o = _oe.Evaluator({"cls": ctx.class_standin(k), "data": data}, ctx.fold_sym(f), opaque_return=False, call_value=calls).run(A.body_of(f.node))
+                got[key] = o.value if o.kind == "return" else o.kind
+        except _oe.Unsupported as ex:
+            raise AnalysisError(f"C01.flags-model: left the fragment: {ex}")
+        n += 1
+        want = {"image_type": itype, "tz": tz or 0, "sub": sub or 0, "key_store": bool(ks), "app_table": bool(tab)}
+        if {k_: (bool(v) if isinstance(want[k_], bool) else v) for k_, v in got.items()} != want:
+            probs.append(f"image type {itype}, TrustZone {tz}, sub type {sub}, key store {ks!r}, table {tab}: flags {out.value:#x} read back as {got}")
+    ctx.chk.exhaustive_rules.add("C01.flags-model")
+    ctx.chk.decide(not probs, "C01.flags-model", f"{MIX}::Mbi_MixinIvt.create_flags <-> readers", f"the flags word reads back as the components it was made from ({n} model images)", "; ".join(probs[:2])[:600], "", A.loc(MIX, cf.node))
+
+
 def run(ctx) -> None:
     ctx.chk.explain("C01: IVT flag encoder/decoders by bit provenance; IVT word windows written, cleared and read at the same constants; the dynamic MBI classes are reconstructed "
                     "statically from every database (C3 MRO over the mixin list) and linted: providers, attribute closure, image types, ZeroTotalLength only on plain images, "
@@ -803,6 +865,7 @@ def run(ctx) -> None:
     ctx.rule(rule_parse_wait)
     ctx.rule(rule_reloc_table)
     ctx.rule(rule_parse_validates)
+    ctx.rule(rule_flags_model)
     from . import c17 as _c17
     _t = _c17.build_taint(ctx)
     ctx.rule(_c17.rule_stable_getter, _t, "C01")
